@@ -31,7 +31,7 @@ ASSUMPTIONS = [
     'determinism across processes and hash seeds is measured by selftest/determinism.py (digests of this check included)',
     'deep copies are taken at quiescent points (between public calls), as game-tree construction does',
 ]
-BIAS = dict(custom_num=1, rakes=('none', 'none', 'pct'))
+BIAS = dict(custom_num=1, rakes=('none', 'none', 'pct', 'nfnd'))
 UNORDERED = ('deck_cards',)
 
 
